@@ -234,6 +234,19 @@ func makeDocs(c *fw.Ctx, n int) (docs []docFile, bad []docFile) {
 		os.WriteFile(p, data, 0o644)
 		docs = append(docs, docFile{p, kind, desc})
 		c.Seen("doc_kind", kind)
+		if i%12 == 6 {
+			// twins: two documents from the same writer settings (same object numbers for
+			// fonts, pages, resources) whose fonts differ — anything remembered per object
+			// number, per resource name or per path suffix across documents shows here
+			for tw := 0; tw < 2; tw++ {
+				rt := c.Rand("doc-twin", i, tw)
+				g := pdfw.GenDoc(rt, pdfw.DocOpts{MinPages: 2, MaxPages: 2, MaxLines: 6, MaxFonts: 3, TreeDepth: 1, Inherit: "leaf", NoEmptyPages: true, FontKinds: []string{"tt-winansi-tounicode", "type0-identity", "t1-std14-tounicode"}, ExactKinds: true})
+				b := pdfw.Build(int64(i), pdfw.BaselineLayout(), []*pdfw.Doc{g.Doc})
+				p := filepath.Join(dir, fmt.Sprintf("d%03d-twin%d.pdf", i, tw))
+				os.WriteFile(p, b.Bytes, 0o644)
+				docs = append(docs, docFile{p, "pdf", "twin pdf (same object numbering, different fonts)"})
+			}
+		}
 	}
 	// inputs for histories: a PDF whose page content ends mid-operand, a truncated PDF, garbage, an empty file
 	r := c.Rand("bad")
